@@ -53,14 +53,14 @@ type Op struct {
 	// data
 	Len int `json:"len,omitempty"` // bytes taken from the lane's body
 	// rst / goaway / wupd / settings / ping / raw
-	Code     uint32     `json:"code,omitempty"`
-	Incr     uint32     `json:"incr,omitempty"`
-	OnConn   bool       `json:"on_conn,omitempty"` // wupd on stream 0
+	Code     uint32      `json:"code,omitempty"`
+	Incr     uint32      `json:"incr,omitempty"`
+	OnConn   bool        `json:"on_conn,omitempty"` // wupd on stream 0
 	Settings [][2]uint32 `json:"settings,omitempty"`
-	RawType  uint8      `json:"raw_type,omitempty"`
-	RawFlags uint8      `json:"raw_flags,omitempty"`
-	RawLen   int        `json:"raw_len,omitempty"`
-	RawHex   string     `json:"raw_hex,omitempty"`
+	RawType  uint8       `json:"raw_type,omitempty"`
+	RawFlags uint8       `json:"raw_flags,omitempty"`
+	RawLen   int         `json:"raw_len,omitempty"`
+	RawHex   string      `json:"raw_hex,omitempty"`
 	// StreamRef: which stream id the op is sent on. 0: the lane's own stream; >0: absolute id; -1: stream 0
 	StreamRef int `json:"stream_ref,omitempty"`
 	// LaneRef > 0: the op is sent on the stream of lane LaneRef-1 (enabled once that lane has a stream id)
@@ -106,11 +106,11 @@ type Fault struct {
 
 // SrvPlan is the complete, explicit workload of one server-side run. It is what a replay file stores.
 type SrvPlan struct {
-	Family string   `json:"family"`
-	Srv    SrvCfg   `json:"srv"`
-	Peer   PeerCfg  `json:"peer"`
-	Lanes  []Lane   `json:"lanes"`
-	Faults []Fault  `json:"faults,omitempty"`
+	Family string  `json:"family"`
+	Srv    SrvCfg  `json:"srv"`
+	Peer   PeerCfg `json:"peer"`
+	Lanes  []Lane  `json:"lanes"`
+	Faults []Fault `json:"faults,omitempty"`
 	// GateMode: "sched" = the scheduler opens handler gates as environment actions; "open" = handlers never wait
 	GateMode string `json:"gate_mode"`
 	// Mask switches optional park point kinds off (swarm): names of simrt kinds
@@ -123,4 +123,6 @@ type SrvPlan struct {
 	// DelayS2C: offer holding back server→peer bytes (frames in flight)
 	DelayS2C bool `json:"delay_s2c"`
 	MaxSteps int  `json:"max_steps"`
+	// Trail: what the peer does after a connection-scoped offence (C10): keep-sending | silent | stall | disconnect | idle
+	Trail string `json:"trail,omitempty"`
 }
